@@ -28,6 +28,17 @@ file (with the attributes, inner `#![...]` ones included, that precede them) are
 inventory rows too: a changed import (another `Curve`, `HashSet`, `BigInt`) or a
 new crate-level attribute is seen.
 
+Third audit (false alarms on harmless rewrites): local variables of the anchored
+functions are `$loc` holes (LOCALS: renamed consistently the item still matches; a
+local may not take the name of another local or of an identifier the template
+spells out); either order of `is_local() || is_signal()`; a guard comparison
+written the other way round (the caller flips the operator); a dispatch arm
+without braces; no trailing comma in `enum Curve`; visibility qualifiers are
+dropped from the inventory, the order of the items does not matter, and NEW free
+functions / consts / types / imports are tolerated (no anchored body can use
+them) - a new `impl` / `trait` / `mod`, a changed derive, a missing or duplicated
+item still fail.
+
 Second audit: (1) `enum Curve` pins `#[default]` to its first variant (the
 template no longer lets it sit on any variant; the caller checks that the first
 variant is Bn254); (2) the report builder of each guard block of the non-strict
@@ -84,7 +95,10 @@ CMP_OPS = ("<", "<=", ">", ">=", "==", "!=")
 # ---------------------------------------------------------------------------
 # templates
 # ---------------------------------------------------------------------------
-HOLE_KINDS = ("str", "num", "id", "cmp", "sign")
+HOLE_KINDS = ("str", "num", "id", "cmp", "sign", "loc")
+# `$loc:name` (third audit): a LOCAL identifier - any identifier on its first occurrence, the same one on every
+# later occurrence (a renamed local variable is the same program).  match_template(..., locals=(...)) turns
+# every literal token that is one of the named locals into such a hole.
 
 
 def parse_template(text):
@@ -160,6 +174,23 @@ def _match(nodes, ni, toks, ti, env, st):
             if ti >= st["far"]:
                 st["far"], st["want"] = ti, "<%s>" % n[1]
             return
+        if n[1] == "loc":
+            k, v = toks[ti]
+            key = "@" + n[2]
+            bound = st["locs"].get(key)
+            free = k == "id" and v not in RUST_WORDS and (bound == v or (
+                bound is None and v not in st["locs"].values() and v not in st["lits"]))
+            if not free:
+                if ti >= st["far"]:
+                    st["far"], st["want"] = ti, "<local %s>" % (bound or n[2])
+                return
+            if bound is None:
+                st["locs"][key] = v
+                yield from _match(nodes, ni + 1, toks, ti + 1, env, st)
+                del st["locs"][key]
+            else:
+                yield from _match(nodes, ni + 1, toks, ti + 1, env, st)
+            return
         ok, val = _hole(n[1], toks[ti])
         if not ok:
             if ti >= st["far"]:
@@ -181,10 +212,53 @@ def _match(nodes, ni, toks, ti, env, st):
             yield from _match(nodes, ni + 1, toks, tj, env + ((n[1], acc),), st)
 
 
-def match_template(template, toks):
-    """-> (bindings dict | None, reason).  The whole token list must be consumed."""
+RUST_WORDS = frozenset("""as break const continue crate else enum extern false fn for if impl in let loop match mod move mut
+pub ref return self Self static struct super trait true type unsafe use where while Some None Ok Err""".split())
+
+
+def _localise(nodes, names):
+    """Literal identifier tokens that name one of the locals become `$loc` holes."""
+    out = []
+    for n in nodes:
+        if n[0] == "lit":
+            run = []
+            for k, v in n[1]:
+                if k == "id" and v in names:
+                    if run:
+                        out.append(("lit", run))
+                        run = []
+                    out.append(("hole", "loc", v))
+                else:
+                    run.append((k, v))
+            if run:
+                out.append(("lit", run))
+        elif n[0] in ("rep", "opt"):
+            out.append((n[0], n[1], _localise(n[2], names)))
+        else:
+            out.append(n)
+    return out
+
+
+def _literal_ids(nodes):
+    out = set()
+    for n in nodes:
+        if n[0] == "lit":
+            out |= {v for k, v in n[1] if k == "id"}
+        elif n[0] in ("rep", "opt"):
+            out |= _literal_ids(n[2])
+    return out
+
+
+def match_template(template, toks, locals=()):
+    """-> (bindings dict | None, reason).  The whole token list must be consumed.
+    `locals`: identifiers of the template that are local variables of the item (bound by `let`, a
+    closure / function parameter or a pattern with an explicit `field: name`): renamed consistently,
+    the item still matches.  Two locals never share one name and a local never takes the name of an
+    identifier the template spells out (that could be a capture; such a text does not match)."""
     nodes = parse_template(template)
-    st = {"far": 0, "want": None}
+    if locals:
+        nodes = _localise(nodes, frozenset(locals))
+    st = {"far": 0, "want": None, "locs": {}, "lits": _literal_ids(nodes)}
     for tj, env in _match(nodes, 0, toks, 0, (), st):
         if tj == len(toks):
             return dict(env), ""
@@ -312,6 +386,7 @@ fn find_bn254_specific_circuits(cfg: &Cfg) -> ReportCollection {
         Curve::$id:variant =>
             $(arr HashSet::from($id:array) $)
             $(ret { return ReportCollection::new(); } $)
+            $(ret2 return ReportCollection::new() $)
             $(comma , $)
         $]
     };
@@ -337,7 +412,8 @@ fn visit_statement(
     use Expression::*;
     use Statement::*;
     if let Substitution { meta: var_meta, op: AssignLocalOrComponent, rhe, .. } = stmt {
-        if var_meta.type_knowledge().is_local() || var_meta.type_knowledge().is_signal() {
+        if $(ls var_meta.type_knowledge().is_local() || var_meta.type_knowledge().is_signal() $)
+           $(sl var_meta.type_knowledge().is_signal() || var_meta.type_knowledge().is_local() $) {
             return;
         }
         let rhe = if let Update { rhe, .. } = rhe { rhe } else { rhe };
@@ -380,7 +456,8 @@ fn visit_statement(stmt: &Statement, prime_size: &BigInt, reports: &mut ReportCo
     use Statement::*;
     use ValueReduction::*;
     if let Substitution { meta: var_meta, op: AssignLocalOrComponent, rhe, .. } = stmt {
-        if var_meta.type_knowledge().is_local() || var_meta.type_knowledge().is_signal() {
+        if $(ls var_meta.type_knowledge().is_local() || var_meta.type_knowledge().is_signal() $)
+           $(sl var_meta.type_knowledge().is_signal() || var_meta.type_knowledge().is_local() $) {
             return;
         }
         let rhe = if let Update { rhe, .. } = rhe { rhe } else { rhe };
@@ -389,7 +466,7 @@ fn visit_statement(stmt: &Statement, prime_size: &BigInt, reports: &mut ReportCo
             if component_name == $str:lit && args.len() == $num:arity {
                 let arg = &args[$num:idx];
                 if let Some(FieldElement { value }) = arg.value() {
-                    if value $cmp:op prime_size {
+                    if $(fwd value $cmp:op prime_size $) $(rev prime_size $cmp:op value $) {
                         return;
                     }
                 }
@@ -440,7 +517,7 @@ fn find_unconstrained_less_than(cfg: &Cfg) -> ReportCollection {
         let mut is_positive = false;
         for bit_size in &data.bit_sizes {
             if let Some(ValueReduction::FieldElement { value }) = bit_size.value() {
-                if value $cmp:op &max_value {
+                if $(fwd value $cmp:op &max_value $) $(rev &max_value $cmp:op value $) {
                     is_positive = true;
                     break;
                 }
@@ -462,7 +539,8 @@ fn update_components(stmt: &Statement, components: &mut HashMap<VariableAccess, 
     use Statement::*;
     use Expression::*;
     if let Substitution { meta, var, op: AssignLocalOrComponent, rhe, .. } = stmt {
-        if meta.type_knowledge().is_local() || meta.type_knowledge().is_signal() {
+        if $(ls meta.type_knowledge().is_local() || meta.type_knowledge().is_signal() $)
+           $(sl meta.type_knowledge().is_signal() || meta.type_knowledge().is_local() $) {
             return;
         }
         let (rhe, access) = if let Update { access, rhe, .. } = rhe {
@@ -586,8 +664,8 @@ struct ConstraintData {
 # constants.rs ---------------------------------------------------------------
 T_ENUM_CURVE = r'''
 enum Curve {
-    #[default] $id:first ,
-    $[variants $id:variant , $]
+    #[default] $id:first $(c0 , $)
+    $[variants $id:variant , $] $(last $id:variant $)
 }
 '''
 T_CURVE_PRIME = r'''
@@ -863,6 +941,28 @@ def read_cli(main_text, config_text):
     return {"shape": shape, "env": envs, "problems": problems, "default_curve": default}
 
 
+def _novis(header):
+    """An item header without its visibility qualifier."""
+    return re.sub(r"\bpub (\( (crate|super|self) \) )?", "", header)
+
+
+# Local variables of the anchored functions (third audit): renamed consistently, the function is the same program.
+# Only names bound by `let`, by a parameter or by an explicit `field: name` pattern - never a field shorthand
+# (`rhe`, `args`, `value`, `access`, `var`, `meta`), whose name is the field's.
+LOCALS = {
+    "bn254::find_bn254_specific_circuits": ("problematic_templates", "reports", "basic_block", "stmt", "cfg"),
+    "bn254::visit_statement": ("stmt", "problematic_templates", "reports", "var_meta", "component_meta", "component_name"),
+    "nonstrict::find_nonstrict_binary_conversion": ("cfg", "reports", "basic_block", "stmt"),
+    "nonstrict::visit_statement": ("stmt", "prime_size", "reports", "var_meta", "component_meta", "component_name", "arg"),
+    "lessthan::find_unconstrained_less_than": ("cfg", "components", "inputs", "constraints", "basic_block", "stmt", "input",
+                                               "reports", "max_value", "data", "is_positive"),
+    "lessthan::update_components": ("stmt", "components", "component_name", "component"),
+    "lessthan::update_inputs": ("stmt", "components", "inputs", "component_access", "signal_access", "index_access", "component",
+                                "signal_name"),
+    "constants::Curve::from_str": ("curve",),
+}
+
+
 def read_file(key, text):
     """Strict reading of one source file.
     -> {"shape": [(label, matched)], "env": {label: bindings}, "problems": [...]}"""
@@ -873,19 +973,27 @@ def read_file(key, text):
     except (ValueError, IndexError) as e:
         problems.append("%s: the file could not be cut into items: %r" % (key, e))
         items = []
-    inv = [(c, h) for c, h, _, _, _, _ in items]
-    ok = inv == INVENTORY[key]
+    # Third audit - the inventory is compared up to what cannot change the anchored behaviour: visibility
+    # (`pub`, `pub(crate)`) is dropped, the ORDER of the items does not matter, and NEW free items (functions,
+    # consts, types, `use` declarations) are accepted: every anchored body matches its template token for
+    # token, so none of them can call a new helper, and a new import cannot shadow an explicit one that is still
+    # there.  What must hold: every recorded item is present exactly once, and there is no new `impl` /
+    # `trait` / `mod` block (a hand-written `PartialEq for Curve`, `Hash for VariableAccess`), no new item inside an
+    # anchored impl, no unparsed item.
+    inv = [(c, _novis(h), k) for c, h, k, _, _, _ in items]
+    want = [(c, _novis(h)) for c, h in INVENTORY[key]]
+    have = [(c, h) for c, h, _ in inv]
+    missing = [x for x in want if have.count(x) != want.count(x)]
+    extra = [(c, h) for c, h, k in inv if (c, h) not in want and (c != "" or k not in ("fn", "const", "static", "struct", "enum", "type", "use"))]
+    tolerated = [(c, h) for c, h, k in inv if (c, h) not in want and (c, h) not in extra]
+    ok = not missing and not extra
     shape.append(("%s::inventory" % key, ok))
     if not ok:
-        extra = [x for x in inv if x not in INVENTORY[key]]
-        missing = [x for x in INVENTORY[key] if x not in inv]
         what = []
         if extra:
             what.append("new: " + "; ".join("%s%s" % (c + " / " if c else "", h) for c, h in extra[:4]))
         if missing:
-            what.append("gone: " + "; ".join("%s%s" % (c + " / " if c else "", h) for c, h in missing[:4]))
-        if not what:
-            what.append("order or multiplicity changed")
+            what.append("gone or duplicated: " + "; ".join("%s%s" % (c + " / " if c else "", h) for c, h in missing[:4]))
         problems.append("%s: the items of the file (impl headers, functions, consts, types with their attributes) changed - %s"
                         % (key, ", ".join(what)))
     anchors = list(ANCHORS[key])
@@ -902,10 +1010,10 @@ def read_file(key, text):
             problems.append("%s: %d items `%s %s`%s, expected one" % (label, len(found), kind, name, " in " + cont if cont else ""))
             continue
         lo, hi = found[0]
-        env, why = match_template(template, toks[lo:hi])
+        env, why = match_template(template, toks[lo:hi], locals=LOCALS.get(label, ()))
         shape.append((label, env is not None))
         if env is None:
             problems.append("%s does not have the anchored shape: %s" % (label, why))
         else:
             envs[label] = env
-    return {"shape": shape, "env": envs, "problems": problems}
+    return {"shape": shape, "env": envs, "problems": problems, "tolerated_new_items": tolerated}
